@@ -39,6 +39,7 @@ type exchange struct {
 
 // sessionPort drives one real *mqtt.Client sequentially.
 type sessionPort struct {
+	cfgx      []string // the rest of the Config (cfgx op)
 	log       *eventLog
 	store     *simStore
 	client    *mqtt.Client
@@ -157,6 +158,10 @@ func (p *sessionPort) dialer(ctx context.Context) (net.Conn, error) {
 		p.dials = p.dials[1:]
 	}
 	if plan.block {
+		if _, ok := ctx.Deadline(); !ok {
+			// PauseTimeout is configured: a dial that gets no answer must end with it
+			p.log.add("ev stall dial unarmed")
+		}
 		<-ctx.Done()
 		return nil, ctx.Err()
 	}
@@ -178,6 +183,29 @@ func (p *sessionPort) dialer(ctx context.Context) (net.Conn, error) {
 }
 
 func (p *sessionPort) config(clean string, m1, m2 string) *mqtt.Config {
+	c := p.baseConfig(clean, m1, m2)
+	if x := p.cfgx; x != nil {
+		c.KeepAlive = uint16(atoi(x[1]))
+		c.UserName = string(unhex(x[2]))
+		if x[3] != "nil" {
+			c.Password = unhex(x[3])
+			if c.Password == nil {
+				c.Password = []byte{}
+			}
+		}
+		c.Will.Topic = string(unhex(x[4]))
+		if x[5] != "nil" {
+			c.Will.Message = unhex(x[5])
+			if c.Will.Message == nil {
+				c.Will.Message = []byte{}
+			}
+		}
+		c.Will.Retain, c.Will.AtLeastOnce, c.Will.ExactlyOnce = x[6] == "1", x[7] == "1", x[8] == "1"
+	}
+	return c
+}
+
+func (p *sessionPort) baseConfig(clean string, m1, m2 string) *mqtt.Config {
 	return &mqtt.Config{
 		Dialer:       p.dialerFor(p.gen),
 		PauseTimeout: time.Hour,
@@ -441,6 +469,9 @@ func (p *sessionPort) exec(f []string) []string {
 			p.client = c
 			return []string{"init ok"}
 		}, false)
+	case "cfgx": // cfgx <keepalive> <user> <pass|nil> <willtopic> <willmsg|nil> <retain> <alo> <eo>: the rest of the Config for the sessions that follow
+		p.cfgx = f
+		return nil
 	case "initx": // initx <cid> <variant>: InitSession with a Config that must be refused without a trace in the store
 		cfg := p.config("0", "4", "4")
 		switch f[2] {
